@@ -1084,6 +1084,60 @@ def rule_t10(F):
     return r
 
 
+def rule_t11(F):
+    """Unary operators: `!e` is the boolean negation of the value of e and `-e` the arithmetic negation, for EVERY operand.  The MIR
+    lowering of each is evaluated (vf/sx, all paths) on an opaque operand and on `l op r` for each of the thirteen binary operators:
+    the result is `Value::Not` / `Value::Negate` of the lowered operand - or, for `!`, the lowering of `l op' r` where op' is the
+    EXACT complement of op.  Only `==` / `!=` are exact complements on every type: `!(a < b)` is not `a >= b` for floats (NaN)."""
+    from .. import sx
+    r = RuleResult("C01.T11", "unary `!` / `-`: Value::Not / Value::Negate of the lowered operand on every path (rewrites of !(a op b) only with an exact complement: == / !=)", floor=2)
+    L = "mir::lower::Lowerer::<'r>::"
+    EXACT = {("Eq", "Ne"), ("Ne", "Eq")}
+    for fn, want in (("not", "Not"), ("negate", "Negate")):
+        b = F.body(L + fn)
+        if b is None or not b.hir:
+            r.missing(L + fn)
+            continue
+        epos = [i for i, p_ in enumerate(b.hir["params"]) if "Meta<ast::Expr>" in str(p_.get("ty") or "")]
+        if len(epos) != 1:
+            r.missing("the operand parameter of " + L + fn)
+            continue
+        pname = b.hir["params"][epos[0]].get("name")
+        vectors = [("opaque operand", None)] + [("`l %s r`" % op, op) for op in OPS]
+        bad = []
+        for label, op in vectors:
+            pv = {}
+            if op is not None:
+                inner = ("ctor", "BinOp", sx.Sym("l"), op, sx.Sym("r"))
+                pv = {epos[0]: inner}      # `&**expr`: dereferencing is transparent to the evaluator, so the node stands for its Meta
+            try:
+                ps = sx.Exec(F, opaque={p_ for p_ in F.paths() if hir.last(p_) in ("expr", "binop", "assign_to_var")}).paths(b.hir, pv)
+            except (sx.TooManyPaths, sx.Unknown) as e_:
+                bad.append((label, "cannot evaluate: %s" % e_))
+                continue
+            for res, evs in ps:
+                if res == ("diverges",):
+                    continue
+                nots = sx.find_ctors(res, want)
+                if nots and sx.is_ctor(res) and res[1] == want:
+                    continue
+                # a rewrite: the result comes from lowering another binary operation
+                bo = [e for e in evs if e[0] == "mcall" and e[1] == "binop"]
+                if op is None and bo:
+                    continue       # which operator is rewritten into which is decided on the thirteen concrete operands below
+                if op is not None and bo and all(len(e[3]) == 3 and isinstance(e[3][1], str) and not isinstance(e[3][1], sx.Sym) and (op, str(e[3][1])) in EXACT
+                                                 and sx.mentions(e[3][0], "l") and sx.mentions(e[3][2], "r") for e in bo):
+                    continue
+                what = "lowers to `l %s r`" % str(bo[0][3][1]) if bo and len(bo[0][3]) == 3 else "yields %s" % sx.short(res, 50)
+                bad.append((label, what))
+        r.inst("unary %s" % fn, {"fn": L + fn, "operands_tried": len(vectors), "deviations": [list(x) for x in bad][:6]})
+        for label, what in bad[:4]:
+            r.bad(L + fn, "%s on %s" % (fn, label), relfile(b.file), b.line,
+                  "%s of %s %s instead of Value::%s of the lowered operand: the complement of an ordering comparison is not its negation on floats (NaN), only == / != may be rewritten" % (
+                      "`!`" if fn == "not" else "`-`", label, what, want))
+    return r
+
+
 def rules(ctx):
     F = ctx["F"]
-    return [rule_t1(F), rule_t2(F), rule_t3(F), rule_t4(F), rule_t5(F), rule_t6(F), rule_t7(F), rule_t8(F), rule_t9(F), rule_t10(F)]
+    return [rule_t1(F), rule_t2(F), rule_t3(F), rule_t4(F), rule_t5(F), rule_t6(F), rule_t7(F), rule_t8(F), rule_t9(F), rule_t10(F), rule_t11(F)]
